@@ -101,28 +101,35 @@ Theorem C17_address_sound : forall g n f0 tr s K c,
   exists p, aget c (peers s) = Some p /\ p_pk p = Some K.
 Proof. intros g n f0 tr s K c HR. apply (address_sound g n f0 tr s HR). Qed.
 
-(* Full statement (FALSE for the pinned code): every entry that records key K —
-   in particular every connection Connected under K — is reachable through the map:
+(* Full statement (FALSE for the code): every entry that records key K — in
+   particular every connection Connected under K — is reachable through the map:
      forall ..., Reach g n f0 tr s -> aget c (peers s) = Some p -> p_pk p = Some K ->
-                 exists c', aget K (addr s) = Some c'. *)
-Theorem C17_address_complete_refuted :
-  exists tr s c p K, Reach g1 1 1 tr s
-    /\ aget c (peers s) = Some p /\ p_status p = Connected /\ p_pk p = Some K
-    /\ aget K (addr s) = None.
-Proof. exact address_complete_refuted. Qed.
-
+                 exists c', aget K (addr s) = Some c'.
+   Since fix f517868 a reconnection no longer loses the key
+   (C17_reconnection_keeps_key); the purge still does: *)
 Theorem C17_address_complete_refuted_by_purge :
   exists tr s p, Reach g1 1 1 tr s
     /\ aget 2 (peers s) = Some p /\ p_status p = Connected /\ p_pk p = Some 2
     /\ aget 2 (addr s) = None.
 Proof. exact address_complete_refuted_by_purge. Qed.
 
-(* in runs in which no entry was removed (no reconnection merge, no purge) *)
+(* in every run in which remove_disconnected_peers purged nothing — reconnection
+   merges included — every entry that records K is reachable through the map,
+   and the map entry is an entry of that key *)
 Theorem C17_address_complete : forall g n f0 tr s c p K,
-  Reach g n f0 tr s -> ~ Known_C17_removed tr ->
+  Reach g n f0 tr s -> ~ Known_C17_purged tr ->
   aget c (peers s) = Some p -> p_pk p = Some K ->
   exists c' p', aget K (addr s) = Some c' /\ aget c' (peers s) = Some p' /\ p_pk p' = Some K.
 Proof. exact address_complete_guarded'. Qed.
+
+(* non-vacuity of the guard: a run WITH a reconnection merge (entry 2 removed),
+   after which the key is mapped to the new connection *)
+Example C17_reconnection_keeps_key :
+  exists tr s p, Reach g1 1 1 tr s
+    /\ In (ERemoved 2) tr /\ aget 2 (peers s) = None
+    /\ aget 3 (peers s) = Some p /\ p_status p = Connected /\ p_pk p = Some 2
+    /\ aget 2 (addr s) = Some 3.
+Proof. exact reconnection_keeps_key. Qed.
 
 (* ---- the boundary of what the signature proves ----
    C17_connected_authentic says that a signature by K over the challenge of c
@@ -186,7 +193,6 @@ Print Assumptions C17_bad_response_inert.
 Print Assumptions C17_no_panic_refuted.
 Print Assumptions C17_no_panic.
 Print Assumptions C17_address_sound.
-Print Assumptions C17_address_complete_refuted.
 Print Assumptions C17_address_complete_refuted_by_purge.
 Print Assumptions C17_address_complete.
 Print Assumptions C17_reflection_connected.
